@@ -5,6 +5,7 @@
   Together with `Cspuz.C11.C11_compose` this yields the property for this puzzle.
 -/
 import CspuzModel.Proofs.C11Simpleloop
+import CspuzModel.Proofs.C11LoopEx
 namespace Cspuz.C11.Simpleloop
 open Cspuz Cspuz.Spec Cspuz.Puzzles.Simpleloop Cspuz.Spec.Simpleloop
 
@@ -45,5 +46,31 @@ example : Consistent exPb := by
     simp only [isPivot, exPb, beq_iff_eq, Prod.mk.injEq] at hp; omega
   obtain ⟨rfl, rfl⟩ := this
   decide
+
+/-! ### non-vacuity of the rules: the 2 × 2 board without blocked cells is solved by the tour of its four cells, and
+hence (by the theorem) the posted program has a model -/
+
+def exPb2 : Problem := { height := 2, width := 2, blocked := [[0, 0], [0, 0]], pivot := (1, 1) }
+
+theorem exPb2_wf : WellFormed exPb2 := by
+  refine ⟨by decide, by decide, rfl, ?_, by decide, by decide, by decide, by decide⟩
+  intro row hr
+  simp only [exPb2, List.mem_cons, List.not_mem_nil, or_false] at hr
+  rcases hr with rfl | rfl <;> rfl
+
+open Cspuz.Spec.Loop in
+theorem exPb2_rules : Rules exPb2 (segAnswer 1 1 fun _ => true) := by
+  refine ⟨fun _ => true, rfl, Cspuz.Proofs.C11LoopEx.unitLoop, ?_⟩
+  intro y hy x hx
+  have hy' : y = 0 ∨ y = 1 := by simp only [exPb2] at hy; omega
+  have hx' : x = 0 ∨ x = 1 := by simp only [exPb2] at hx; omega
+  rcases hy' with rfl | rfl <;> rcases hx' with rfl | rfl <;> decide
+
+open Cspuz.Spec.Loop in
+example : ∃ P σ, program exPb2 = .ok P ∧ Sat P.decls P.cs σ ∧
+    P.keyVals σ = (segAnswer 1 1 fun _ => true).map some := by
+  obtain ⟨P, hP⟩ := total exPb2 exPb2_wf
+  obtain ⟨σ, hσ, hk⟩ := ((program_iff_rules exPb2 exPb2_wf P hP).1 _).mpr exPb2_rules
+  exact ⟨P, σ, hP, hσ, hk⟩
 
 end Cspuz.C11.Simpleloop
